@@ -257,7 +257,7 @@ Section Ext.
   Qed.
 
   Lemma apply_fn_ext : forall f x, apply_fn lk1 f x = apply_fn lk2 f x.
-  Proof. intros [c|c|s|] [z|t| |l]; try reflexivity. cbn [apply_fn]. rewrite Hlk. reflexivity. Qed.
+  Proof. intros [c|c|s| |r] [z|t| |l]; try reflexivity. cbn [apply_fn]. rewrite Hlk. reflexivity. Qed.
 
   Lemma apply_pred_ext : forall p x, apply_pred lk1 p x = apply_pred lk2 p x.
   Proof.
@@ -803,13 +803,15 @@ Qed.
 
 Lemma R_operand : forall st ss o, R st ss -> eval_operand st o = s_operand ss o.
 Proof.
-  intros st ss o HR. destruct o as [v|x|x i]; cbn [eval_operand s_operand].
+  intros st ss o HR. destruct o as [v|x|x i|x i]; cbn [eval_operand s_operand].
   - reflexivity.
   - destruct HR as [_ [He [H _]]]. rewrite He. destruct (senv ss x) as [l|]; [|reflexivity].
     specialize (H l). unfold slook. destruct (hget (hp st) l) as [[xs|kv]|].
     + destruct H as [H1 _]. rewrite H1. reflexivity.
     + destruct H as [H1 [kv' [H2 _]]]. rewrite H1, H2. reflexivity.
     + destruct H as [H1 H2]. rewrite H1, H2. reflexivity.
+  - rewrite (R_get_vec _ _ _ HR). destruct (s_vec ss x) as [[l xs]|]; cbn [bind snd]; [|reflexivity].
+    apply index_get.
   - rewrite (R_get_vec _ _ _ HR). destruct (s_vec ss x) as [[l xs]|]; cbn [bind snd]; [|reflexivity].
     apply index_get.
 Qed.
@@ -945,6 +947,23 @@ Proof.
     destruct (s_vec ss src) as [[l xs]|e] eqn:Ev; cbn [bind fst snd]; [|same_fail].
     rewrite vec_map_spec, (seq_map_ext _ _ (R_look _ _ HR)).
     destruct (seq_map (slook ss) f xs) as [ys|e]; cbn [bind]; [|same_fail].
+    done_ok. apply R_alloc_vec. exact HR.
+  - (* MapElem *)
+    rewrite (R_get_vec _ _ _ HR).
+    destruct (s_vec ss src) as [[l xs]|e] eqn:Ev; cbn [bind fst snd]; [|same_fail].
+    rewrite vec_map_spec, (seq_map_ext _ _ (R_look _ _ HR)), (R_operand _ _ (OElem w i) HR).
+    destruct (seq_map (slook ss) (FConst (s_operand ss (OElem w i))) xs) as [ys|e]; cbn [bind]; [|same_fail].
+    done_ok. apply R_alloc_vec. exact HR.
+  - (* MapKeyElem *)
+    rewrite (R_get_vec _ _ _ HR).
+    destruct (s_vec ss src) as [[l xs]|e] eqn:Ev; cbn [bind fst snd]; [|same_fail].
+    rewrite vec_map_spec, (seq_map_ext _ _ (R_look _ _ HR)).
+    assert (Hr : (do lkv <- get_map st m; Ok (opt_val (mget (snd lkv) k))) =
+                 (do lkv <- s_map ss m; Ok (opt_val (mget (snd lkv) k)))).
+    { pose proof (R_get_map st ss m HR) as Hm. destruct (s_map ss m) as [[lm kv']|e]; [|rewrite Hm; reflexivity].
+      destruct Hm as [kv [E [[_ [_ Hg]] _]]]. rewrite E. cbn [bind snd]. rewrite Hg. reflexivity. }
+    rewrite Hr.
+    destruct (seq_map (slook ss) (FConst (do lkv <- s_map ss m; Ok (opt_val (mget (snd lkv) k)))) xs) as [ys|e]; cbn [bind]; [|same_fail].
     done_ok. apply R_alloc_vec. exact HR.
   - (* FilterF *)
     rewrite (R_get_vec _ _ _ HR).
@@ -1138,6 +1157,7 @@ Definition so (a b : var) (o : operand) : operand :=
   | OLit v => OLit v
   | OVar x => OVar (sv a b x)
   | OElem x i => OElem (sv a b x) i
+  | OCall x i => OCall (sv a b x) i
   end.
 
 (* every USE of variable a replaced by b (binding occurrences stay) *)
@@ -1155,6 +1175,8 @@ Definition subst_uses (a b : var) (c : cop) : cop :=
   | Clear v => Clear (sv a b v)
   | Clone dst src => Clone dst (sv a b src)
   | MapF dst src f => MapF dst (sv a b src) f
+  | MapElem dst src w i => MapElem dst (sv a b src) (sv a b w) i
+  | MapKeyElem dst src m k => MapKeyElem dst (sv a b src) (sv a b m) k
   | FilterF dst src p => FilterF dst (sv a b src) p
   | IndexOf v x => IndexOf (sv a b v) (so a b x)
   | Len v => Len (sv a b v)
@@ -1190,7 +1212,10 @@ Section Alias.
   Proof. intro x. unfold get_map. rewrite eget_sv. reflexivity. Qed.
 
   Lemma operand_so : forall o, eval_operand st (so a b o) = eval_operand st o.
-  Proof. intros [v|x|x i]; cbn [so eval_operand]; rewrite ?eget_sv, ?get_vec_sv; reflexivity. Qed.
+  Proof. intros [v|x|x i|x i]; cbn [so eval_operand]; rewrite ?eget_sv, ?get_vec_sv; reflexivity. Qed.
+
+  Lemma elem_sv : forall w i, eval_operand st (OElem (sv a b w) i) = eval_operand st (OElem w i).
+  Proof. intros w i. exact (operand_so (OElem w i)). Qed.
 
   Lemma operands_so : forall os, eval_operands st (map (so a b) os) = eval_operands st os.
   Proof. induction os as [|o os IH]; cbn [map eval_operands]; [reflexivity|]. rewrite operand_so, IH. reflexivity. Qed.
@@ -1206,7 +1231,7 @@ Section Alias.
   Theorem alias_indistinguishable : forall legacy c, step legacy st (subst_uses a b c) = step legacy st c.
   Proof.
     intros legacy c. destruct c; cbn [subst_uses step];
-      rewrite ?operands_so, ?operand_so, ?get_vec_sv, ?get_map_sv, ?eget_sv, ?map_lit_so; reflexivity.
+      rewrite ?operands_so, ?operand_so, ?elem_sv, ?get_vec_sv, ?get_map_sv, ?eget_sv, ?map_lit_so; reflexivity.
   Qed.
 End Alias.
 
